@@ -227,6 +227,8 @@ func runC09(c *Ctx) {
 	c.ruleSubmitIgnoresStatus("R09.4")
 	c.ruleNotifyAfterChange("R09.4")
 	c.ruleBarrierComposition("R09.5")
+	// "in queue order after Restart": one dispatcher at a time, also across the Restart
+	c.ruleDispatcherJoined("R09.6")
 }
 
 func (c *Ctx) ruleReserveThenCheck(rule string) {
